@@ -206,7 +206,7 @@ func applyEdit(lines []string, e textEdit) []string {
 			k--
 		}
 		return out
-	case "grow-indent":
+	case "grow-indent", "continuation-ize":
 		out := append([]string(nil), lines...)
 		out[l] = strings.Repeat(" ", e.N) + out[l]
 		return out
@@ -329,12 +329,16 @@ func genParts(r *core.RNG) []streamPart {
 }
 
 func genEdit(r *core.RNG, nlines, nbytes int) textEdit {
-	ops := []string{"del-line", "dup-line", "swap-lines", "shrink-indent", "grow-indent", "drop-value", "long-name", "flip", "flip", "inflate-number", "replace-line", "bad-date"}
+	ops := []string{"del-line", "dup-line", "swap-lines", "shrink-indent", "grow-indent", "drop-value", "long-name", "flip", "flip", "inflate-number", "replace-line", "bad-date", "continuation-ize", "continuation-ize"}
 	e := textEdit{Op: ops[r.Intn(len(ops))], Line: r.Intn(nlines + 1)}
 	if r.Chance(1, 2) && nlines > 30 {
 		e.Line = r.Intn(30) // the header is where the structure is
 	}
 	switch e.Op {
+	case "continuation-ize":
+		// a header line pushed to the continuation column of the field before it
+		e.Line = r.Range(1, 14)
+		e.N = r.Range(12, 13)
 	case "shrink-indent", "grow-indent":
 		e.N = r.Range(1, 13)
 	case "drop-value":
@@ -994,9 +998,9 @@ func (C07) RunSeed(tier string, seed uint64, idx int) *core.Result {
 		parts := genParts(r)
 		probe := (&c07Scenario{Parts: parts}).build()
 		nl, nb := bytes.Count(probe.data, []byte("\n")), len(probe.data)
-		k := 12
+		k := 24
 		if tier == "thorough" {
-			k = 40
+			k = 60
 		}
 		for i := 0; i < k; i++ {
 			sc := &c07Scenario{Kind: "stream", Parts: parts, CRLF: r.Chance(1, 8)}
@@ -1010,7 +1014,7 @@ func (C07) RunSeed(tier string, seed uint64, idx int) *core.Result {
 					sc.Pipe.CutKind = []string{"eio", "ueof", "closed"}[r.Intn(3)]
 				}
 			}
-			sc.CheckAlt, sc.AltChunks = r.Chance(1, 3), genChunks(r)
+			sc.CheckAlt, sc.AltChunks = r.Chance(2, 3), genChunks(r)
 			sc.Rescan = r.Chance(1, 3)
 			x.runStream(sc, sc.build())
 			if idx%40 == 1 && i == 0 {
